@@ -356,8 +356,26 @@ def world_order_cases(ctx):
                 l["tearDownFaults"] = []
             worlds.shape_relpath_chdir(rng, w, o)
         cases.append(cw.Case(w, o))
+    # directed: a layer with several bases of which one that is not the last owns tests and sorts after the last
+    for names_, multi_bases in ((["Zeta", "Beta", "Multi", "Plain"], [0, 1]), (["Beta", "Zeta", "Multi", "Alpha"], [1, 0]),
+                                (["Mid", "Zed", "Abc", "Multi"], [1, 0, 2])):
+        w = worlds.gen_world(rng, n_layers=4, tests_per_layer=(1, 2), kinds=["pass"], p_fault=0.0, p_write=0.0)
+        non_unit = [k for k, l in enumerate(w["layers"]) if l["kind"] != "unit"]
+        if len(non_unit) == 4:
+            for k, nm in zip(non_unit, names_):
+                l = w["layers"][k]
+                l.update(kind="class", name=nm, module="wlayers", bases=[], setUp=True, tearDown=True, tearDownFaults=[],
+                         setUpRaises=[])
+                l.pop("falsy", None)
+            mi = non_unit[names_.index("Multi")]
+            w["layers"][mi]["bases"] = [non_unit[b] for b in multi_bases]
+            w["layers"][mi].update(testSetUp=True, testTearDown=True)
+            # (a base is created before the layer derived from it: the world lists layers in creation order)
+            order = [k for k in range(len(w["layers"])) if k != mi] + [mi]
+            if order == list(range(len(w["layers"]))):
+                cases.append(cw.Case(w, {"verbose": 1, "processes": 1}, "listing-order"))
     cases = [c for c in cw.corpus_cases(PROP) if c.opts.get("processes", 1) == 1] + cases
-    cw.run_real_cases(ctx, cases)
+    cw.run_real_cases(ctx, cases, list_first=True)
     cw.run_models(ctx, cases)
     for c in cases:
         ctx.count(("world-order", json_key(c)), nontrivial=True, sample=None)
@@ -367,6 +385,19 @@ def world_order_cases(ctx):
         bad = cw.run_order_violation(c, strict=True)
         if bad:
             ctx.violation(bad, c.replay_obj(), signature="world-run-order")
+            continue
+        # --list-tests presents the layers in the order a run executes them
+        lst = getattr(c, "listing", None)
+        if lst is not None and not lst.timeout and c.parent_model is not None and "error" not in c.parent_model:
+            listed = [li for li, ts in cw.listing_groups(c.world, lst.stdout) if ts]
+            want = []
+            for ev in c.parent_model["trace"]:
+                if ev[0] in ("header", "spawn") and ev[1] not in want:
+                    want.append(ev[1])
+            want = [l for l in want if l in listed]
+            if listed != want:
+                ctx.violation("--list-tests lists the layers in the order %r, a run executes them in the order %r" % (
+                    listed, want), c.replay_obj(), signature="listing-order")
 
 
 def parallel_order_cases(ctx):
